@@ -60,10 +60,7 @@ TABLE = {
     ("cam16::math::Unadapt::<T>::run", "(- component.abs() + from_f64(400.0))"): "|adapted response| < 400 for every finite forward result (400 x/(x+27.13) < 400)",
     # ---- colour difference (CIEDE2000, WCAG)
     ("color_difference::get_ciede2000_difference", "(+ c_bar.powi(7) + from_f64(6103515625.0))"): "C^7 + 25^7 >= 25^7",
-    ("color_difference::get_ciede2000_difference", "(+ ((- from_f64(50.0) + l_bar) * (- from_f64(50.0) + l_bar)) + from_f64(20.0)).sqrt()"): "sqrt(20 + x^2) >= sqrt(20)",
-    ("color_difference::get_ciede2000_difference", "(+ c_bar_prime.powi(7) + from_f64(6103515625.0))"): "C'^7 + 25^7 >= 25^7",
     ("color_difference::get_ciede2000_difference", "((+ (((- from_f64(50.0) + l_bar) * (- from_f64(50.0) + l_bar) * from_f64(0.015)) / (+ ((- from_f64(50.0) + l_bar) * (- from_f64(50.0) + l_bar)) + from_f64(20.0)).sqrt()) + one()) * one())"): "k_L = 1 and S_L = 1 + ... >= 1",
-    ("color_difference::get_ciede2000_difference", "((+ (c_bar_prime * from_f64(0.045)) + one()) * one())"): "k_C = 1 and S_C = 1 + 0.045 C' >= 1",
     ("color_difference::get_ciede2000_difference", "((+ (c_bar_prime * from_f64(0.015) * t) + one()) * one())"): "k_H = 1; S_H = 1 + 0.015 C' T with T >= 1 - 0.17 - 0.24 - 0.32 - 0.20 = 0.07 > 0, so S_H >= 1",
     ("color_difference::get_ciede2000_difference", "((+ (c_bar_prime * from_f64(0.015) * t) + one()) * (+ (c_bar_prime * from_f64(0.045)) + one()) * one() * one())"): "product of the two factors above, each >= 1",
     ("color_difference::Wcag21RelativeContrast::relative_contrast", "(+ from_f64(0.05) + min_luma)"): "relative luminance >= 0, so min + 0.05 >= 0.05",
@@ -114,7 +111,6 @@ TABLE.update({
     ("impl ClampAssign for okhwb::Okhwb<T>>::clamp_assign", "divisor"): "divisor = select(sum > 1, sum, 1): either > 1 or exactly 1",
     ("<ok_utils::ST<T> as std::convert::From<ok_utils::LC<T>>>::from", "lc.lightness"): "cusp lightness = cbrt(1/max rgb) lies strictly between 0 and 1",
     ("<ok_utils::ST<T> as std::convert::From<ok_utils::LC<T>>>::from", "(- lc.lightness + one())"): "cusp lightness lies strictly between 0 and 1",
-    ("luv_bounds::BoundaryLine::distance_to_origin", "sqrt((+ (self.slope * self.slope) + 1.0))"): "sqrt(m^2 + 1) >= 1",
     ("luv_bounds::LuvBounds::from_lightness", "(+ ((- (126452.0 * index) + (632260.0 * index)) * sub2) + (126452.0 * t))"): "zero only for l = 0 on the t = 0 lines; the resulting NaN line is skipped by intersect_length_at_angle (|denom| > 1e-6 is false for NaN), the t = 1 lines give length 0, and Hsluv<-Lchuv tests the bound with is_normal",
     ("ok_utils::ChromaValues::<T>::from_normalized", "((from_f64(0.4) * lightness) * (from_f64(0.4) * lightness))"): "C_a = 0.4 L > 0: callers return early for L = 0 and L = 1",
     ("ok_utils::ChromaValues::<T>::from_normalized", "(((- lightness + one()) * from_f64(0.8)) * ((- lightness + one()) * from_f64(0.8)))"): "C_b = 0.8 (1 - L) > 0: callers return early for L = 0 and L = 1",
@@ -470,6 +466,116 @@ def _always_returns(b):
     return False
 
 
+# ------------------------------------------------------------------------------------------------ structural positivity
+def _same(a, b, flow):
+    return norm_render(a, flow) == norm_render(b, flow)
+
+
+def nonneg(e, flow, depth=0):
+    """e >= 0 for every real (finite) value of its free variables, by shape alone.  Returns a derivation string or None."""
+    e = strip(e)
+    k = e.get("k")
+    if depth > 10:
+        return None
+    cv = const_value(e, flow)
+    if cv is not None:
+        return "%g >= 0" % cv if cv >= 0 else None
+    if k == "path" and e["res"].get("k") == "local":
+        b = flow.bind.get(e["res"]["h"])
+        if b is not None and _expandable(b):
+            return nonneg(b, flow, depth + 1)
+        if b is not None and strip(b).get("k") in ("mcall", "call"):
+            return nonneg(b, flow, depth + 1)
+        return None
+    if k == "bin" and e.get("op") == "*":
+        x, y = e["a"]
+        if _same(x, y, flow):
+            return "square of %s" % render(x, flow)[:30]
+        nx, ny = nonneg(x, flow, depth + 1), nonneg(y, flow, depth + 1)
+        return "product of non-negatives (%s; %s)" % (nx, ny) if nx and ny else None
+    if k == "bin" and e.get("op") == "+":
+        nx, ny = nonneg(e["a"][0], flow, depth + 1), nonneg(e["a"][1], flow, depth + 1)
+        return "sum of non-negatives" if nx and ny else None
+    if k == "bin" and e.get("op") == "/":
+        nx, py = nonneg(e["a"][0], flow, depth + 1), positive(e["a"][1], flow, depth + 1)
+        return "non-negative / positive" if nx and py else None
+    if k == "mcall":
+        n = e["n"]
+        if n in ("clone", "into") and not e.get("a"):
+            return nonneg(e["r"], flow, depth + 1)
+        if n in ("abs", "sqrt"):
+            return "%s(..) >= 0" % n
+        if n == "powi" and e.get("a"):
+            ev = const_value(e["a"][0], flow)
+            if ev is not None and int(ev) == ev and int(ev) % 2 == 0:
+                return "even power"
+            if ev is not None and nonneg(e["r"], flow, depth + 1):
+                return "power of a non-negative"
+        if n in ("max",) and e.get("a"):
+            if nonneg(e["r"], flow, depth + 1) or nonneg(e["a"][0], flow, depth + 1):
+                return "max with a non-negative"
+        if n in ("min",) and e.get("a"):
+            if nonneg(e["r"], flow, depth + 1) and nonneg(e["a"][0], flow, depth + 1):
+                return "min of non-negatives"
+        if n == "powf":
+            # x^p with x >= 0 is >= 0 (NaN for negative bases is outside this rule: the base must be shown non-negative)
+            if nonneg(e["r"], flow, depth + 1):
+                return "real power of a non-negative"
+    if k == "call" and isinstance(e.get("c"), dict):
+        n = e["c"].get("n")
+        if n in ("abs", "sqrt") and e.get("a"):
+            return "%s(..) >= 0" % n
+        if n in ("from_f64", "from_scalar") and e.get("a"):
+            return nonneg(e["a"][0], flow, depth + 1)
+        if n == "max" and len(e.get("a", [])) == 2 and (nonneg(e["a"][0], flow, depth + 1) or nonneg(e["a"][1], flow, depth + 1)):
+            return "max with a non-negative"
+    return None
+
+
+def positive(e, flow, depth=0):
+    """e > 0 by shape alone: a positive constant plus non-negative terms, products / roots of positives."""
+    e = strip(e)
+    k = e.get("k")
+    if depth > 10:
+        return None
+    cv = const_value(e, flow)
+    if cv is not None:
+        return "%g > 0" % cv if cv > 0 else None
+    if k == "path" and e["res"].get("k") == "local":
+        b = flow.bind.get(e["res"]["h"])
+        if b is not None and (_expandable(b) or strip(b).get("k") in ("mcall", "call")):
+            return positive(b, flow, depth + 1)
+        return None
+    if k == "bin" and e.get("op") == "+":
+        x, y = e["a"]
+        px, py = positive(x, flow, depth + 1), positive(y, flow, depth + 1)
+        nx, ny = nonneg(x, flow, depth + 1), nonneg(y, flow, depth + 1)
+        if (px and ny) or (py and nx):
+            return "positive + non-negative (%s)" % (px or py)
+        return None
+    if k == "bin" and e.get("op") == "*":
+        px, py = positive(e["a"][0], flow, depth + 1), positive(e["a"][1], flow, depth + 1)
+        return "product of positives" if px and py else None
+    if k == "bin" and e.get("op") == "/":
+        px, py = positive(e["a"][0], flow, depth + 1), positive(e["a"][1], flow, depth + 1)
+        return "quotient of positives" if px and py else None
+    if k == "mcall":
+        n = e["n"]
+        if n in ("clone", "into") and not e.get("a"):
+            return positive(e["r"], flow, depth + 1)
+        if n in ("sqrt", "cbrt") and positive(e["r"], flow, depth + 1):
+            return "root of a positive"
+        if n == "max" and e.get("a") and (positive(e["r"], flow, depth + 1) or positive(e["a"][0], flow, depth + 1)):
+            return "max with a positive"
+    if k == "call" and isinstance(e.get("c"), dict):
+        n = e["c"].get("n")
+        if n in ("sqrt", "cbrt") and e.get("a") and positive(e["a"][0], flow, depth + 1):
+            return "root of a positive"
+        if n in ("from_f64", "from_scalar") and e.get("a"):
+            return positive(e["a"][0], flow, depth + 1)
+    return None
+
+
 def fn_key(b):
     p = b["path"]
     m = re.match(r"^<(.*) as (?:[\w:]+::)?(FromColorUnclamped<.*>)>::from_color_unclamped$", p)
@@ -504,7 +610,7 @@ def sites(F):
 def run(F, rep, tier="quick", extra=None, only=None):
     rep.trusted += ["rustc name resolution / type check", "the reviewed reasons of the TABLE in rules/c07.py (one line per unguarded divisor)",
                     "IsValidDivisor = is_normal (C17 checks the SIMD impls agree)"]
-    n_const = n_guard = n_table = n_open = 0
+    n_const = n_guard = n_table = n_open = n_pos = 0
     used = set()
     seen_guard = set()
     for b, flow, n, parents, div, kind in sites(F):
@@ -519,6 +625,14 @@ def run(F, rep, tier="quick", extra=None, only=None):
             if gk not in seen_guard:
                 seen_guard.add(gk)
                 rep.ob("DIV-GUARD", gk, True, "dominated by a validity test of the same divisor", loc)
+            continue
+        why = positive(div, flow)
+        if why:
+            n_pos += 1
+            pk = "%s: %s" % (fn_key(b), render(div, flow)[:60])
+            if pk not in seen_guard:
+                seen_guard.add(pk)
+                rep.ob("DIV-POS", pk, True, "divisor is positive by its shape: " + why, loc)
             continue
         key = fn_key(b)
         r = render(div, flow)
@@ -541,8 +655,8 @@ def run(F, rep, tier="quick", extra=None, only=None):
     stale = [k for k in TABLE if k not in used]
     for fk, dk in stale:
         rep.fail("DIV-TABLE", "%s: %s" % (fk, dk), "reviewed table entry matches no division site any more (the code changed: re-review)")
-    rep.ob("DIV", "division sites", True, "%d constant, %d guarded by is_valid_divisor / != 0 on the same divisor, %d justified in the reviewed table" % (n_const, n_guard, n_table))
-    rep.floor("division sites in the anchored files", n_const + n_guard + n_table + n_open, 192)
+    rep.ob("DIV", "division sites", True, "%d constant, %d guarded by is_valid_divisor / != 0 on the same divisor, %d positive by shape, %d justified in the reviewed table" % (n_const, n_guard, n_pos, n_table))
+    rep.floor("division sites in the anchored files", n_const + n_guard + n_table + n_open + n_pos, 192)
     rep.floor("guarded division sites", n_guard, 43)
     check_panics(F, rep)
     return {"level": "other", "explanation": EXPLANATION}
